@@ -79,7 +79,24 @@ func (w *world) snap() snapshot {
 
 // observe returns, per listener, the connections accepted since the snapshot and the bytes they received;
 // the connections are then closed.
-func (w *world) observe(s snapshot) (map[string]int, map[string][]byte) {
+//
+// minAccepts: the number of successful channel responses the client saw. The gateway answers success only after
+// its connect() returned, but the listener side may see the connection a moment later (the final ACK of the
+// handshake is processed asynchronously), so wait until that many connections have shown up.
+func (w *world) observe(s snapshot, minAccepts int) (map[string]int, map[string][]byte) {
+	if minAccepts > 0 {
+		deadline := time.Now().Add(3 * time.Second)
+		for {
+			n := 0
+			for l, ls := range w.L {
+				n += ls.Accepts() - s[l]
+			}
+			if n >= minAccepts || time.Now().After(deadline) {
+				break
+			}
+			time.Sleep(100 * time.Microsecond)
+		}
+	}
 	acc := map[string]int{}
 	by := map[string][]byte{}
 	for l, ls := range w.L {
